@@ -10,6 +10,12 @@ The MAC is abstract.  `unpickle_only_if_mac_verifies`, `value_only_if` and `erro
 assumption on it.  The integrity statement `tampered_never_value` is for an *idealised* MAC:
 collision-free jointly in (secret, message) — `MacInjective` — which no real hash satisfies literally;
 it stands for "signatures cannot be computed without the secret, only copied".
+
+Keys and secrets in `tampered_never_value`, `key_swap_*`, `foreign_secret_rejected` are the BYTES the MAC is computed
+over: `key.encode()` and `_to_bytes(secret)`.  The property speaks about the caller's key text and the configured
+secret; the step from bytes to texts is the injectivity of those two conversions — `EncInjective`, an explicit
+hypothesis of the `…_text` theorems below, necessary (`colliding_keys_accept_copy`, `colliding_secrets_accept`) and
+checked on the real code by the harness on generated pairs of confusable keys / secret spellings.
 -/
 namespace CashewsVerif.Props.C10
 open CashewsVerif.Serial
@@ -304,6 +310,176 @@ theorem unverified_is_unsecure_or_default (cfg : Cfg α) (reg : Registry α) (s 
   | unsecure => right; rfl
   | ok p => exact absurd hc (hno p)
 
+/-! ### from the bytes under the MAC to the caller's texts: the conversions must be injective -/
+
+/-- a conversion of the caller's texts (key `str`s; configured secrets, possibly after the settings-url parser) into
+the bytes the MAC is computed over; `none` = the conversion raises.  Injective: no two different texts give the same
+bytes.  (`key.encode()` — strict UTF-8 — and `_to_bytes` on `str`s are; `key.encode("utf-8", "backslashreplace")`,
+`"ignore"`, `"replace"`, a normalising or truncating step, or `str(number)` after numeric parsing are not.) -/
+def EncInjective {τ : Type} (enc : τ → Option Bytes) : Prop :=
+  ∀ a b x, enc a = some x → enc b = some x → a = b
+
+/-- **`tampered_never_value` for texts.**  The signature in the blob was issued for the key text `k0`, payload `p0`,
+under the configured secret `sec0`; the reader is configured with `sec` and reads the key text `k`.  With injective
+conversions, acceptance forces the SAME configured secret, and `key ‖ p = key0 ‖ p0` on the encoded keys. -/
+theorem tampered_never_value_text {κ σ : Type} (keyEnc : κ → Option Bytes) (secEnc : σ → Option Bytes)
+    (hsec : EncInjective secEnc)
+    (cfg : Cfg α) (s : Signer) (d : Digest) (hinj : MacInjective cfg.mac d)
+    (sec0 sec : σ) (k0 k : κ) (sb0 kb0 kb p0 : Bytes)
+    (hs0 : secEnc sec0 = some sb0) (hs : secEnc sec = some s.secret)
+    (_hk0 : keyEnc k0 = some kb0) (_hk : keyEnc k = some kb)
+    (hus : us ∉ cfg.mac d sb0 (kb0 ++ p0)) (rest p : Bytes)
+    (hacc : checkHash cfg s kb (d.label ++ colon :: (cfg.mac d sb0 (kb0 ++ p0) ++ us :: rest)) = .ok p) :
+    p = rest ∧ sec0 = sec ∧ kb ++ p = kb0 ++ p0 := by
+  obtain ⟨h1, h2, h3⟩ := tampered_never_value cfg s d hinj sb0 kb0 p0 hus kb rest p hacc
+  exact ⟨h1, hsec sec0 sec s.secret (by rw [hs0, h2]) hs, h3⟩
+
+/-- a blob **written under a differently configured secret** — differing in spelling only (`0042` / `42`), in type
+(`str` / number) or in anything else the conversion keeps apart — is rejected as unsafe -/
+theorem foreign_secret_text_rejected {σ : Type} (secEnc : σ → Option Bytes) (hsec : EncInjective secEnc)
+    (cfg : Cfg α) (s : Signer) (d : Digest) (hinj : MacInjective cfg.mac d)
+    (sec0 sec : σ) (sb0 : Bytes) (hs0 : secEnc sec0 = some sb0) (hs : secEnc sec = some s.secret) (hne : sec0 ≠ sec)
+    (key0 p0 key rest : Bytes) (hus : us ∉ cfg.mac d sb0 (key0 ++ p0)) :
+    checkHash cfg s key (d.label ++ colon :: (cfg.mac d sb0 (key0 ++ p0) ++ us :: rest)) = .unsecure := by
+  apply foreign_secret_rejected cfg s d hinj sb0 key0 p0 key rest hus
+  intro e
+  exact hne (hsec sec0 sec s.secret (by rw [hs0, e]) hs)
+
+/-- a blob **copied under a different key text**: accepted only in the D25 residual of the ENCODED keys (one a proper
+prefix of the other, the payload absorbing the difference) -/
+theorem key_swap_text_residual {κ : Type} (keyEnc : κ → Option Bytes) (hkey : EncInjective keyEnc)
+    (cfg : Cfg α) (s : Signer) (d : Digest) (hinj : MacInjective cfg.mac d)
+    (k0 k : κ) (kb0 kb : Bytes) (hk0 : keyEnc k0 = some kb0) (hk : keyEnc k = some kb) (hne : k ≠ k0)
+    (secret0 p0 : Bytes) (hus : us ∉ cfg.mac d secret0 (kb0 ++ p0)) (rest p : Bytes)
+    (hacc : checkHash cfg s kb (d.label ++ colon :: (cfg.mac d secret0 (kb0 ++ p0) ++ us :: rest)) = .ok p) :
+    ∃ r, r ≠ [] ∧ ((kb0 = kb ++ r ∧ p = r ++ p0) ∨ (kb = kb0 ++ r ∧ p0 = r ++ p)) := by
+  apply key_swap_residual cfg s d hinj secret0 kb0 p0 hus kb rest p _ hacc
+  intro e
+  exact hne (hkey k k0 kb hk (by rw [hk0, e]))
+
+/-- two different key texts whose encodings have the same length (confusable spellings are the typical case: `é` /
+`e` + combining accent are told apart by their bytes, not by how they look): a copied blob is rejected -/
+theorem key_swap_text_equal_length_rejected {κ : Type} (keyEnc : κ → Option Bytes) (hkey : EncInjective keyEnc)
+    (cfg : Cfg α) (s : Signer) (d : Digest) (hinj : MacInjective cfg.mac d)
+    (k0 k : κ) (kb0 kb : Bytes) (hk0 : keyEnc k0 = some kb0) (hk : keyEnc k = some kb) (hne : k ≠ k0)
+    (hlen : kb.length = kb0.length)
+    (secret0 p0 : Bytes) (hus : us ∉ cfg.mac d secret0 (kb0 ++ p0)) (rest : Bytes) :
+    checkHash cfg s kb (d.label ++ colon :: (cfg.mac d secret0 (kb0 ++ p0) ++ us :: rest)) = .unsecure := by
+  apply key_swap_equal_length_rejected cfg s d hinj secret0 kb0 p0 hus kb rest _ hlen
+  intro e
+  exact hne (hkey k k0 kb hk (by rw [hk0, e]))
+
+/-- **The injectivity of the key conversion is necessary**, for every MAC: if two key texts are converted to the same
+bytes (a lone surrogate and its `\uXXXX` spelling under `backslashreplace`; a dropped or `?`-replaced character;
+normalisation; truncation), the blob legitimately signed for one is accepted under the other. -/
+theorem colliding_keys_accept_copy {κ : Type} (keyEnc : κ → Option Bytes) (cfg : Cfg α) (s : Signer)
+    (k0 k : κ) (kb : Bytes) (hk0 : keyEnc k0 = some kb) (hk : keyEnc k = some kb) (p : Bytes)
+    (hus : us ∉ cfg.mac s.digest s.secret (kb ++ p)) :
+    ∃ kb0 kb', keyEnc k0 = some kb0 ∧ keyEnc k = some kb' ∧
+      checkHash cfg s kb' (hashSign cfg s kb0 p) = .ok p :=
+  ⟨kb, kb, hk0, hk, checkHash_sign_of_no_us cfg s kb p hus⟩
+
+/-- **… and so is the injectivity of the secret conversion**: two configured secrets that become the same bytes
+(`?secret=0042` and `?secret=42` once the url parser has made the int 42 of both and it is rendered with `str()`)
+are one secret — the blob written under one is accepted by a reader configured with the other. -/
+theorem colliding_secrets_accept {σ : Type} (secEnc : σ → Option Bytes) (cfg : Cfg α) (d : Digest)
+    (sec0 sec : σ) (sb : Bytes) (hs0 : secEnc sec0 = some sb) (hs : secEnc sec = some sb) (key p : Bytes)
+    (hus : us ∉ cfg.mac d sb (key ++ p)) :
+    ∃ sb0 sb', secEnc sec0 = some sb0 ∧ secEnc sec = some sb' ∧
+      checkHash cfg { secret := sb', digest := d } key (hashSign cfg { secret := sb0, digest := d } key p) = .ok p :=
+  ⟨sb, sb, hs0, hs, checkHash_sign_of_no_us cfg { secret := sb, digest := d } key p hus⟩
+
+/-- `_to_bytes` keeps different `str` secrets different … -/
+theorem toBytes_str_injective : EncInjective (fun u : Bytes => toBytes (.str u)) := by
+  intro a b x ha hb
+  simp only [toBytes, Option.some.injEq] at ha hb
+  rw [ha, hb]
+
+/-- … a `str` and the `bytes` of the same text are the SAME secret (by design) … -/
+theorem toBytes_str_eq_bytes (t : Bytes) : toBytes (.str t) = toBytes (.bytes t) := rfl
+
+/-- … and an object that is neither is not rendered at all (no `str(number)`): no MAC can be computed with it -/
+theorem toBytes_other : toBytes .other = none := rfl
+
+/-- **Where the key matters.**  `decode` looks at the key only to compute a MAC: when it computes none (stored object
+not bytes, integer literal, no `_`, unknown label, `NullSigner`), the result is the same for every key — which is why
+`decodeK` may pass any bytes for a key that cannot be encoded. -/
+theorem decode_ignores_key_without_mac (cfg : Cfg α) (reg : Registry α) (k1 k2 : Bytes) (w : Val α) (same : Bool)
+    (h : decodeUsesMac cfg w same = false) : decode cfg reg k1 w same = decode cfg reg k2 w same := by
+  have hpre : preLoads cfg reg k1 w same = preLoads cfg reg k2 w same := by
+    unfold decodeUsesMac at h
+    unfold preLoads
+    cases same with
+    | true => rfl
+    | false =>
+      simp only [Bool.false_eq_true, if_false] at h ⊢
+      cases w with
+      | int i => rfl
+      | obj x => rfl
+      | bytes b =>
+        cases hs : cfg.signer with
+        | none => simp [checkSign, hs]
+        | some s =>
+          simp only [hs] at h
+          by_cases hd : isIntLit b = true
+          · simp [hd]
+          · simp only [hd, if_false, Bool.false_eq_true] at h ⊢
+            simp only [checkSign, hs, checkHash]
+            cases hsp : splitFirst us b with
+            | none => rfl
+            | some hp =>
+              obtain ⟨hdr, p⟩ := hp
+              simp only [hsp] at h
+              cases hsd : signAndDigest s hdr with
+              | none => simp [hsd]
+              | some sd => simp [hsd] at h
+  unfold decode
+  rw [hpre]
+
+/-- the same for `encode`: integers are stored raw and the `NullSigner` returns its argument -/
+theorem encode_ignores_key_without_mac (cfg : Cfg α) (reg : Registry α) (k1 k2 : Bytes) (v : Val α)
+    (h : encodeUsesMac cfg v = false) : encode cfg reg k1 v = encode cfg reg k2 v := by
+  unfold encodeUsesMac at h
+  cases v with
+  | int i => rfl
+  | bytes b =>
+    cases hs : cfg.signer with
+    | none => simp [encode, sign, hs]
+    | some s => simp [hs] at h
+  | obj x =>
+    cases hs : cfg.signer with
+    | none => simp [encode, sign, hs]
+    | some s => simp [hs] at h
+
+/-- **A key that cannot be encoded verifies nothing**: reading a key text with a lone surrogate on a signing
+configuration never reaches the unpickler or a custom decoder — the read raises (`macError`), or the MAC was not needed
+(integer literal, no `_`: the default, unknown label: unsafe-data error). -/
+theorem unencodable_key_never_verifies (cfg : Cfg α) (reg : Registry α) (s : Signer) (hs : cfg.signer = some s)
+    (ok : Bool) (b : Bytes) (v : Val α)
+    (h : decodeK cfg reg none ok (.bytes b) false = .res (.value v)) :
+    isIntLit b = true ∧ v = .int (intVal b) := by
+  unfold decodeK at h
+  by_cases hu : decodeUsesMac cfg (.bytes b) false = true
+  · simp [hu] at h
+  · simp only [hu, Bool.false_eq_true, if_false, ResK.res.injEq] at h
+    rcases value_only_if cfg reg _ b v h with hd | ⟨p, hp, _⟩ | ⟨p, hp, _⟩
+    · exact hd
+    all_goals
+      exfalso
+      apply hu
+      obtain ⟨b', hdr, d, hb, hsplit, hno, _⟩ := verified_of_check cfg reg s hs _ (.bytes b) false p (by first | exact Or.inl hp | exact Or.inr hp)
+      cases hb
+      have hnd : isIntLit b = false := by
+        cases hd : isIntLit b with
+        | false => rfl
+        | true => simp [preLoads, hd] at hp
+      have hsp : splitFirst us b = some (hdr, p) := by rw [hsplit]; exact splitFirst_append us hdr p hno
+      have hsd : (signAndDigest s hdr).isSome = true := by
+        cases hx : signAndDigest s hdr with
+        | some _ => rfl
+        | none => simp [preLoads, hnd, checkSign, hs, checkHash, hsp, hx] at hp
+      simp [decodeUsesMac, hs, hnd, hsp, hsd]
+
 /-! ### non-vacuity -/
 
 example : MacInjective pairMac .md5 := pairMac_injective .md5
@@ -316,7 +492,7 @@ def toyCfg : Cfg Nat where
                loads := fun b => match b with
                  | [0x80, n] => .ok (.obj n.toNat)
                  | _ => .unpickling }
-  typeName := fun _ => [0x4e]
+  classOf := fun _ => ⟨[0x4e], [0x4e]⟩
 
 /-- the registry as it is after `import cashews`: only `bytes` -/
 def toyReg : Registry Nat := Registry.empty.register tagBytes { enc := fun _ => [], dec := fun b => some (.bytes b) }
@@ -342,5 +518,38 @@ example : decode toyCfg toyReg [0x6b]
     (.bytes (toyS.digest.label ++ colon ::
       (genSign toyCfg toyS .md5 ([0x6b] ++ (tagBytes ++ [colon])) [0x80, 7] ++ us :: ((tagBytes ++ [colon]) ++ [0x80, 7])))) false
     = .value (.bytes [0x80, 7]) := by decide
+
+/-! ### keys and secrets as texts, evaluated -/
+
+-- the hypothesis is satisfiable: the identity conversion, and `_to_bytes` on `str`s (`toBytes_str_injective`)
+example : EncInjective (fun b : Bytes => some b) := by
+  intro a b x ha hb; simp only [Option.some.injEq] at ha hb; rw [ha, hb]
+
+/-- key texts as code points; the strict conversion refuses what it cannot encode (here: anything ≥ 128, standing for
+a lone surrogate) … -/
+def strictEnc (k : List Nat) : Option Bytes := k.mapM fun c => if c < 128 then some c.toUInt8 else none
+/-- … a lossy one replaces it by `?`, like `key.encode("ascii", "replace")` -/
+def lossyEnc (k : List Nat) : Option Bytes := some (k.map fun c => if c < 128 then c.toUInt8 else 0x3f)
+
+-- strict: the key `k<U+D83D>` cannot be written on a signing configuration, and reading it raises before anything is verified
+example : (strictEnc [0x6b, 0xd83d]).bind (fun kb => encode toyCfg toyReg kb (.obj 7)) = none := by decide
+example : encodeK toyCfg toyReg (strictEnc [0x6b, 0xd83d]) true (.obj 7) = none := by decide
+example : decodeK toyCfg toyReg (strictEnc [0x6b, 0xd83d]) true (.bytes (hashSign toyCfg toyS [0x6b, 0x3f] [0x80, 7])) false
+    = .macError .key := by decide
+-- … while a bare digit string, a blob without `_` and one with an unknown label are answered without the key
+example : decodeK toyCfg toyReg (strictEnc [0x6b, 0xd83d]) true (.bytes [0x34, 0x32]) false = .res (.value (.int 42)) := by decide
+example : decodeK toyCfg toyReg (strictEnc [0x6b, 0xd83d]) true (.bytes [0x78]) false = .res .dflt := by decide
+example : decodeK toyCfg toyReg (strictEnc [0x6b, 0xd83d]) true (.bytes [0x78, 0x3a, 0x30, us, 0x31]) false = .res .unsecure := by decide
+-- lossy: `k<U+D83D>` and `k?` become the same bytes, and the blob signed for `k?` IS accepted under `k<U+D83D>`
+example : lossyEnc [0x6b, 0xd83d] = lossyEnc [0x6b, 0x3f] := by decide
+example : (lossyEnc [0x6b, 0xd83d]).map (fun kb => decode toyCfg toyReg kb (.bytes (hashSign toyCfg toyS [0x6b, 0x3f] [0x80, 7])) false)
+    = some (.value (.obj 7)) := by decide
+-- a secret that is not bytes after `_to_bytes` (the int the url parser made of `secret=0042`): no write, reads raise
+example : encodeK toyCfg toyReg (some [0x6b]) (toBytes .other).isSome (.obj 7) = none := by decide
+example : decodeK toyCfg toyReg (some [0x6b]) (toBytes .other).isSome (.bytes (hashSign toyCfg toyS [0x6b] [0x80, 7])) false
+    = .macError .secret := by decide
+-- the texts `0042` and `42` are different secrets: a blob written under the first is unsafe for a reader holding the second
+example : decode { toyCfg with signer := some { secret := [0x34, 0x32], digest := .md5 } } toyReg [0x6b]
+    (.bytes (hashSign toyCfg { secret := [0x30, 0x30, 0x34, 0x32], digest := .md5 } [0x6b] [0x80, 7])) false = .unsecure := by decide
 
 end CashewsVerif.Props.C10
